@@ -181,6 +181,51 @@ def run(P, R):
     ok = must_call(me.node, lambda c: call_text(c) == 'self.supvisors.stopper.stop_applications')
     R.check(r5, ok, 'the Master stops every application when entering an ending state', 'final-order|stop-phase',
             me.loc(), '_EndingState._master_enter does not always call stopper.stop_applications()')
+    # nothing is started during the stop phase: what Stopper.after would start once an application is stopped (the
+    # starts deferred by restart_application / restart_process) is dropped by the abort that precedes the stop phase
+    ok = must_call(me.node, lambda c: call_text(c) == 'self._abort_jobs') and \
+        [call_text(c) for c in sorted((c for c in own_nodes(me.node) if isinstance(c, ast.Call)),
+                                      key=lambda c: (c.lineno, c.col_offset))
+         if call_text(c) in ('self._abort_jobs', 'self.supvisors.stopper.stop_applications')][:1] == ['self._abort_jobs']
+    R.check(r5, ok, 'pending jobs are aborted before the stop phase', 'final-order|abort-first', me.loc(),
+            '_EndingState._master_enter does not call _abort_jobs() before stopper.stop_applications()')
+    STP = P.cls('Stopper')
+    af = P.unit('Stopper.after')
+    deferred = sorted({c.func.value.attr for c in own_nodes(af.node) if isinstance(c, ast.Call) and
+                       isinstance(c.func, ast.Attribute) and c.func.attr in ('pop', 'get') and
+                       isinstance(c.func.value, ast.Attribute) and ast.unparse(c.func.value.value) == 'self'})
+    starts = [c for c in own_nodes(af.node) if isinstance(c, ast.Call) and call_text(c).startswith('self.supvisors.starter.start_')]
+    R.require(bool(deferred) and bool(starts), 'Stopper.after: deferred start requests not found (%s)' % deferred)
+    ab = P.resolved(STP, 'abort')
+    fma = factmap(ab)
+    cleared = set()
+    if ab.cls is STP:
+        for a in own_nodes(ab.node):
+            if isinstance(a, ast.Assign) and isinstance(a.targets[0], ast.Attribute) and \
+                    ast.unparse(a.targets[0].value) == 'self' and isinstance(a.value, ast.Dict) and not a.value.keys and \
+                    not fma.at(a):
+                cleared.add(a.targets[0].attr)
+            if isinstance(a, ast.Call) and isinstance(a.func, ast.Attribute) and a.func.attr == 'clear' and \
+                    isinstance(a.func.value, ast.Attribute) and ast.unparse(a.func.value.value) == 'self' and not fma.at(a):
+                cleared.add(a.func.value.attr)
+        base_called = must_call(ab.node, lambda c: call_text(c) in ('super().abort', 'Commander.abort'))
+    else:
+        base_called = True
+    for d_ in deferred:
+        R.check(r5, d_ in cleared and base_called, 'Stopper.abort drops the deferred %s' % d_, 'final-order|deferred|%s' % d_,
+                ab.loc(), 'Stopper.abort() (resolved to %s) does not empty self.%s (and abort the jobs): a start deferred by a '
+                'restart request is applied by Stopper.after() at the end of the stop phase of RESTARTING / SHUTTING_DOWN, '
+                'so a process is started while everything is being stopped' % (ab.qual, d_))
+    # nobody joins during the stop phase: an instance activated (CHECKED -> RUNNING) in an ending state has no Master
+    # yet, check_master() fails and _EndingState._check_consistence forces FINAL before everything is stopped
+    for st in ('RESTARTING', 'SHUTTING_DOWN'):
+        c = fsm.instances[st]
+        act = P.resolved(c, '_activate_instances')
+        calls = [call_text(k) for k in own_nodes(act.node) if isinstance(k, ast.Call) and call_text(k).endswith('activate_checked')]
+        R.check(r5, not calls, '%s does not activate CHECKED instances' % c.name, 'final-order|no-activation|%s' % c.name,
+                act.loc(), '%s._activate_instances (resolved to %s) calls %s: an instance that completes its handshake '
+                'during %s becomes RUNNING without a Master, the Master consistency check fails and FINAL is forced - the '
+                'restart / shutdown order is sent before the applications are stopped' % (c.name, act.qual, calls, st))
     for st in ('RESTARTING', 'SHUTTING_DOWN'):
         c = fsm.instances[st]
         R.check(r5, P.resolved(c, '_master_enter') is me, '%s uses the ending Master entry' % c.name,
